@@ -1,1 +1,246 @@
-fn main() {}
+//! vchild — helper child process started by watchexec as "the command" in the real-process engines.
+//!
+//! usage: vchild LOG TAG [options] [-- anything...]
+//!   --exit-after MS        exit by itself after MS milliseconds (default: run until told otherwise)
+//!   --code N               exit code for own / signalled exits (default 0)
+//!   --on-signal SIG:MS     exit MS ms after receiving SIG (number, or `any`); may be repeated
+//!   --ignore               log signals but never exit because of them
+//!   --fork N:OPTS          fork N grandchildren, each a vchild with OPTS (comma separated, e.g. `--ignore` or
+//!                          `--on-signal,15:10`), tagged TAG.g<i>
+//!   --dump                 log argv (hex), cwd and WATCHEXEC_* / VERIF_* environment
+//!   --read-stdin           log stdin contents (hex, first 64 KiB)
+//!   --no-overlap-probe     do not look for a live predecessor with the same tag
+//! Every log line: `<CLOCK_MONOTONIC ns> <pid> <ppid> <pgid> <sid> <tag> <event ...>` (one write, O_APPEND).
+//! The `start` line is written only after every catchable signal is blocked, so a signal sent after it is
+//! never lost and never kills the process by default action.
+
+use std::{
+	ffi::CString,
+	io::Read,
+	os::unix::ffi::OsStrExt,
+};
+
+fn mono_ns() -> u64 {
+	let mut ts = libc::timespec { tv_sec: 0, tv_nsec: 0 };
+	unsafe { libc::clock_gettime(libc::CLOCK_MONOTONIC, &mut ts) };
+	ts.tv_sec as u64 * 1_000_000_000 + ts.tv_nsec as u64
+}
+
+struct Log {
+	fd: i32,
+	tag: String,
+}
+
+impl Log {
+	fn line(&self, ev: &str) {
+		let (pid, ppid, pgid, sid) = unsafe { (libc::getpid(), libc::getppid(), libc::getpgrp(), libc::getsid(0)) };
+		let s = format!("{} {pid} {ppid} {pgid} {sid} {} {ev}\n", mono_ns(), self.tag);
+		unsafe { libc::write(self.fd, s.as_ptr().cast(), s.len()) };
+	}
+}
+
+fn hex(b: &[u8]) -> String {
+	b.iter().map(|x| format!("{x:02x}")).collect()
+}
+
+#[derive(Clone, Default)]
+struct Mode {
+	exit_after: Option<u64>,
+	code: i32,
+	on_signal: Vec<(i32, u64)>, // sig (0 = any), delay ms
+	ignore: bool,
+	fork: Vec<(usize, Vec<String>)>,
+	dump: bool,
+	read_stdin: bool,
+	overlap_probe: bool,
+}
+
+fn parse(opts: &[String]) -> Mode {
+	let mut m = Mode { overlap_probe: true, ..Default::default() };
+	let mut i = 0;
+	while i < opts.len() {
+		let a = opts[i].as_str();
+		let next = opts.get(i + 1).cloned().unwrap_or_default();
+		match a {
+			"--exit-after" => {
+				m.exit_after = next.parse().ok();
+				i += 1;
+			}
+			"--code" => {
+				m.code = next.parse().unwrap_or(0);
+				i += 1;
+			}
+			"--on-signal" => {
+				if let Some((s, d)) = next.split_once(':') {
+					let sig = if s == "any" { 0 } else { s.parse().unwrap_or(15) };
+					m.on_signal.push((sig, d.parse().unwrap_or(0)));
+				}
+				i += 1;
+			}
+			"--ignore" => m.ignore = true,
+			"--fork" => {
+				if let Some((n, o)) = next.split_once(':') {
+					m.fork.push((n.parse().unwrap_or(1), o.split(',').filter(|s| !s.is_empty()).map(str::to_string).collect()));
+				}
+				i += 1;
+			}
+			"--dump" => m.dump = true,
+			"--read-stdin" => m.read_stdin = true,
+			"--no-overlap-probe" => m.overlap_probe = false,
+			"--" => break,
+			_ => {}
+		}
+		i += 1;
+	}
+	m
+}
+
+fn proc_state(pid: i32) -> Option<char> {
+	let s = std::fs::read_to_string(format!("/proc/{pid}/stat")).ok()?;
+	let close = s.rfind(')')?;
+	s[close + 1..].trim_start().chars().next()
+}
+
+fn run(log: &Log, logpath: &str, mode: &Mode, argv: &[Vec<u8>]) -> ! {
+	unsafe {
+		let mut set: libc::sigset_t = std::mem::zeroed();
+		libc::sigfillset(&mut set);
+		libc::sigprocmask(libc::SIG_BLOCK, &set, std::ptr::null_mut());
+	}
+	if mode.overlap_probe {
+		// a predecessor with the same tag that is still alive (not a zombie) is an overlap witness
+		if let Ok(content) = std::fs::read_to_string(logpath) {
+			let me = unsafe { libc::getpid() };
+			let mut last: Option<i32> = None;
+			for l in content.lines() {
+				let f: Vec<&str> = l.split(' ').collect();
+				if f.len() >= 7 && f[5] == log.tag && f[6] == "start" {
+					if let Ok(p) = f[1].parse::<i32>() {
+						if p != me {
+							last = Some(p);
+						}
+					}
+				}
+			}
+			if let Some(p) = last {
+				if let Some(st) = proc_state(p) {
+					if st != 'Z' && st != 'X' {
+						// make sure it is still the same program (pid reuse): cmdline mentions the tag
+						let cmd = std::fs::read(format!("/proc/{p}/cmdline")).unwrap_or_default();
+						if String::from_utf8_lossy(&cmd).contains(&log.tag) {
+							log.line(&format!("overlap {p} {st}"));
+						}
+					}
+				}
+			}
+		}
+	}
+	if mode.dump {
+		log.line(&format!("argv {}", argv.iter().map(|a| hex(a)).collect::<Vec<_>>().join(",")));
+		log.line(&format!("cwd {}", hex(std::env::current_dir().map(|p| p.as_os_str().as_bytes().to_vec()).unwrap_or_default().as_slice())));
+		let mut envs: Vec<String> = std::env::vars_os()
+			.filter(|(k, _)| {
+				let k = k.to_string_lossy();
+				k.starts_with("WATCHEXEC_") || k.starts_with("VERIF_")
+			})
+			.map(|(k, v)| format!("{}={}", hex(k.as_bytes()), hex(v.as_bytes())))
+			.collect();
+		envs.sort();
+		log.line(&format!("env {}", envs.join(",")));
+	}
+	if mode.read_stdin {
+		let mut buf = Vec::new();
+		std::io::stdin().take(65536).read_to_end(&mut buf).ok();
+		log.line(&format!("stdin {}", hex(&buf)));
+	}
+	// grandchildren
+	for (gi, (n, opts)) in mode.fork.iter().enumerate() {
+		for j in 0..*n {
+			let pid = unsafe { libc::fork() };
+			if pid == 0 {
+				let sub = Log { fd: log.fd, tag: format!("{}.g{}", log.tag, gi * 10 + j) };
+				let mut m = parse(opts);
+				m.overlap_probe = false;
+				run(&sub, logpath, &m, argv);
+			}
+		}
+	}
+	log.line("start");
+
+	let t0 = mono_ns();
+	let mut deadline: Option<(u64, i32)> = mode.exit_after.map(|ms| (t0 + ms * 1_000_000, mode.code));
+	let mut set: libc::sigset_t = unsafe { std::mem::zeroed() };
+	unsafe {
+		libc::sigfillset(&mut set);
+		// SIGCHLD would wake us for every grandchild: reap them quietly
+		libc::sigdelset(&mut set, libc::SIGCHLD);
+	}
+	loop {
+		let now = mono_ns();
+		if let Some((d, code)) = deadline {
+			if now >= d {
+				log.line(&format!("exit {code}"));
+				unsafe { libc::_exit(code) };
+			}
+		}
+		let wait_ns = deadline.map_or(200_000_000, |(d, _)| (d - now).min(200_000_000));
+		let ts = libc::timespec { tv_sec: (wait_ns / 1_000_000_000) as i64, tv_nsec: (wait_ns % 1_000_000_000) as i64 };
+		let mut info: libc::siginfo_t = unsafe { std::mem::zeroed() };
+		let sig = unsafe { libc::sigtimedwait(&set, &mut info, &ts) };
+		// reap any finished grandchildren
+		loop {
+			let mut st = 0;
+			let r = unsafe { libc::waitpid(-1, &mut st, libc::WNOHANG) };
+			if r <= 0 {
+				break;
+			}
+		}
+		if sig > 0 {
+			let from = unsafe { info.si_pid() };
+			log.line(&format!("signal {sig} from {from}"));
+			if !mode.ignore {
+				let rule = mode.on_signal.iter().find(|(s, _)| *s == sig || *s == 0);
+				let delay = match rule {
+					Some((_, d)) => Some(*d),
+					None if mode.on_signal.is_empty() => Some(0), // default: exit at once on any signal
+					None => None,
+				};
+				if let Some(dms) = delay {
+					let at = mono_ns() + dms * 1_000_000;
+					if deadline.map_or(true, |(d, _)| at < d) {
+						deadline = Some((at, mode.code));
+					}
+				}
+			}
+		}
+	}
+}
+
+fn main() {
+	let args: Vec<std::ffi::OsString> = std::env::args_os().collect();
+	let argv: Vec<Vec<u8>> = args.iter().map(|a| a.as_bytes().to_vec()).collect();
+	// LOG and TAG may come from the environment when the argument vector itself is under test
+	let (logpath, tag, opts): (String, String, Vec<String>) = match (std::env::var("VCHILD_LOG"), std::env::var("VCHILD_TAG")) {
+		(Ok(l), Ok(t)) => (l, t, std::env::var("VCHILD_OPTS").unwrap_or_default().split(' ').filter(|s| !s.is_empty()).map(str::to_string).collect()),
+		_ => {
+			if args.len() < 3 {
+				eprintln!("usage: vchild LOG TAG [options]");
+				std::process::exit(2);
+			}
+			(
+				args[1].to_string_lossy().to_string(),
+				args[2].to_string_lossy().to_string(),
+				args[3..].iter().map(|a| a.to_string_lossy().to_string()).collect(),
+			)
+		}
+	};
+	let c = CString::new(logpath.clone()).unwrap();
+	let fd = unsafe { libc::open(c.as_ptr(), libc::O_WRONLY | libc::O_APPEND | libc::O_CREAT | libc::O_CLOEXEC, 0o644) };
+	if fd < 0 {
+		eprintln!("vchild: cannot open log {logpath}");
+		std::process::exit(2);
+	}
+	let log = Log { fd, tag };
+	let mode = parse(&opts);
+	run(&log, &logpath, &mode, &argv);
+}
